@@ -30,8 +30,9 @@ class LowerDimExpr:
         self.compute_cache: Dict[CacheKey, ir.Value] = {}
 
     def _get_dim_value(self, name: str) -> ir.Value:
-        if name in self.compute_cache:
-            return self.compute_cache[name]
+        dim_key = f"dim#{name}"
+        if dim_key in self.compute_cache:
+            return self.compute_cache[dim_key]
 
         origin = self.ctx.get_symbolic_dim_origin(name)
         if origin is None:
@@ -53,7 +54,7 @@ class LowerDimExpr:
         )  # this is defined by ONNX specs to be INT64 for Shape
         _ensure_value_metadata(self.ctx, shp)
 
-        self.compute_cache[name] = shp
+        self.compute_cache[dim_key] = shp
         return shp
 
     def _get_scalar(self, scalar: int) -> ir.Value:
@@ -142,8 +143,9 @@ class LowerDimExpr:
         return result_value
 
     def _lower_factor(self, factor: DimFactorWithPower) -> ir.Value:
-        if str(factor) in self.compute_cache:
-            return self.compute_cache[str(factor)]
+        factor_key = f"factor#{factor}"
+        if factor_key in self.compute_cache:
+            return self.compute_cache[factor_key]
 
         if factor[0].operation is None:
             var_name = factor[0].var
@@ -170,12 +172,13 @@ class LowerDimExpr:
             )
             self._set_metadata(result_value)
 
-        self.compute_cache[str(factor)] = result_value
+        self.compute_cache[factor_key] = result_value
         return result_value
 
     def _lower_term(self, term: DimTermLike) -> ir.Value:
-        if str(term) in self.compute_cache:
-            return self.compute_cache[str(term)]
+        term_key = f"term#{term}"
+        if term_key in self.compute_cache:
+            return self.compute_cache[term_key]
 
         if len(term._factors) == 0:
             result_value = self._get_scalar(1)
@@ -193,12 +196,15 @@ class LowerDimExpr:
                 )
                 self._set_metadata(result_value)
 
-        self.compute_cache[str(term)] = result_value
+        self.compute_cache[term_key] = result_value
         return result_value
 
     def _lower_term_with_mult(self, term: DimTermWithCoeff) -> ir.Value:
-        if str(term) in self.compute_cache:
-            return self.compute_cache[str(term)]
+        # (term, coefficient) and (factor, power) tuples print identically, e.g.
+        # "(B, 2)" for both 2*B and B**2, so every cache level gets its own prefix.
+        term_key = f"term_with_coeff#{term}"
+        if term_key in self.compute_cache:
+            return self.compute_cache[term_key]
 
         if term[0].is_constant and str(term[0]) == "":
             result_value = self._get_scalar(term[1])
@@ -216,15 +222,16 @@ class LowerDimExpr:
                 )
                 self._set_metadata(result_value)
 
-        self.compute_cache[str(term)] = result_value
+        self.compute_cache[term_key] = result_value
         return result_value
 
     def _lower_expr(self, expr: DimExprLike | int) -> ir.Value:
         if isinstance(expr, int):
             return self._get_scalar(expr)
 
-        if str(expr) in self.compute_cache:
-            return self.compute_cache[str(expr)]
+        expr_key = f"expr#{expr}"
+        if expr_key in self.compute_cache:
+            return self.compute_cache[expr_key]
 
         terms: tuple[TermWithMultiplier, ...] = expr._sorted_terms
         result_value = self._lower_term_with_mult(terms[0])
@@ -240,7 +247,7 @@ class LowerDimExpr:
             )
             self._set_metadata(result_value)
 
-        self.compute_cache[str(expr)] = result_value
+        self.compute_cache[expr_key] = result_value
         return result_value
 
     def __call__(self, exprs: list[DimExprLike | int | ir.Value]) -> ir.Value:
